@@ -27,6 +27,9 @@ fn main() {
 	if let Some(s) = args.kv.get("steps") {
 		prof.steps = s.parse().unwrap();
 	}
+	if let Some(s) = args.kv.get("deadline_kind") {
+		prof.deadline_kind = Some(s.parse().unwrap());
+	}
 	let runs = args.num("runs", 160, 8000);
 	let with_serial = args.prop == "C12";
 	let with_mup = args.prop == "C19";
